@@ -781,7 +781,7 @@ func c04Spec(c *Ctx, cases []*qCase, nTuples int) error {
 	}
 	ops = nil
 	for _, w := range wrong {
-		ops = append(ops, fmt.Sprintf("qexplain %d %d %s %s", c04Fuel, w.f, w.c.tuples[w.f][w.k], w.c.sexp))
+		ops = append(ops, fmt.Sprintf("qexplain %s %d %d %s %s", c04Fixes, c04Fuel, w.f, w.c.tuples[w.f][w.k], w.c.sexp))
 	}
 	ans, err = askPar(c.Drv, ops, 12)
 	if err != nil {
